@@ -8,6 +8,7 @@
 //       ce:name ct:data cc:data cd:data cp:target:data ca:name cr:name      factories
 //       ap:p:c  ib:p:c:ref|-  rc:p:new:old  rm:p:c                         NodeMut
 //       sa:e:name:value  ra:e:name  san:e:a  ran:e:a  ga:e:name  ch:n:i    attributes / navigation that hands out handles
+//       sni:e:a  rni:e:name  gni:e:name                                    the same through Node.attributes (NamedNodeMap)
 //       sv:n:value  sd:n:data  ad:n:data  id:n:off:data  dd:n:off:cnt  rd:n:off:cnt:data  st:n:off  nz:e
 //     Answer: one record per step separated by ` | `:
 //       <status> {<dump>} inv=<ok|BAD(..)> ord=<ok|BAD(..)> rt=<ok|skip|BAD(..)> q=<ok|skip|BAD(..)>
@@ -19,7 +20,7 @@ use std::collections::HashMap;
 use std::panic::{catch_unwind, AssertUnwindSafe};
 use xml_dom::{
     AsNode, Attr, AttrMut, CharacterData, CharacterDataMut, Context, Document, DocumentMut, Element, ElementMut,
-    NamedNodeMap, Node, NodeList, NodeMut, NodeType, ProcessingInstruction, ProcessingInstructionMut, TextMut,
+    NamedNodeMap, NamedNodeMapMut, Node, NodeList, NodeMut, NodeType, ProcessingInstruction, ProcessingInstructionMut, TextMut,
     XmlDocument, XmlNode,
 };
 
@@ -574,6 +575,44 @@ fn apply(st: &mut St, op: &str) -> String {
                 Err(er) => format!("err:{}", err_class(&er)),
             },
             _ => "unsupported".to_string(),
+        },
+        // the same three through Node.attributes (NamedNodeMap)
+        "sni" => match (n!(1), n!(2)) {
+            (XmlNode::Element(x), XmlNode::Attribute(a)) => match x.attributes() {
+                Some(map) => match map.set_named_item(a) {
+                    Ok(Some(old)) => format!("ok={}", st.h(&old.as_node())),
+                    Ok(None) => "ok=-".to_string(),
+                    Err(er) => format!("err:{}", err_class(&er)),
+                },
+                None => "err:nomap".to_string(),
+            },
+            _ => "unsupported".to_string(),
+        },
+        "rni" => match n!(1) {
+            XmlNode::Element(x) => match x.attributes() {
+                Some(map) => match map.remove_named_item(&field(&parts, 2)) {
+                    Ok(old) => format!("ok={}", st.h(&old.as_node())),
+                    Err(er) => format!("err:{}", err_class(&er)),
+                },
+                None => "err:nomap".to_string(),
+            },
+            _ => "unsupported".to_string(),
+        },
+        "gni" => match n!(1) {
+            XmlNode::Element(x) => match x.attributes().and_then(|m| m.get_named_item(&field(&parts, 2))) {
+                Some(a) => {
+                    st.slot(Some(a.as_node()));
+                    format!("ok={}", st.h(&a.as_node()))
+                }
+                None => {
+                    st.slot(None);
+                    "ok=-".to_string()
+                }
+            },
+            _ => {
+                st.slot(None);
+                "unsupported".to_string()
+            }
         },
         "ga" => match n!(1) {
             XmlNode::Element(x) => match x.get_attribute_node(&field(&parts, 2)) {
